@@ -491,6 +491,11 @@ def _lnot(a):
     return T(_ew1(lambda x: bnot(_tobool(x)))(D(a)), dtype=torch.bool)
 
 
+OPS["aten.logical_and_.default"] = OPS["aten.bitwise_and_.Tensor"] = _inplace(_land)
+OPS["aten.logical_or_.default"] = OPS["aten.bitwise_or_.Tensor"] = _inplace(_lor)
+OPS["aten.logical_not_.default"] = _inplace(_lnot)
+
+
 def _reduce_bool(f, init, d, dim, keepdim):
     if dim is None:
         r = init
